@@ -567,15 +567,142 @@ fn gen_pool(rng: &mut Rng, lx: &Lexica) -> Vec<Txt> {
     pool
 }
 
+// ---------------------------------------------------------------- Python binding (python/src/tokenizer.rs)
+const PY_FIELDS: [&str; 9] = ["surface", "pos", "normalized_form", "dictionary_form", "reading_form", "word_structure", "split_a", "split_b", "synonym_group_id"];
+const PY_TEXTS: [&str; 8] = ["東京都に行った", "東京都", "京都", "", "東京都東京都", "に行った東京都", "特a東京都", "東"];
+
+/// one history session of the sudachipy Tokenizer: 1..5 tokenize calls (per-call mode override, out= reuse, texts that
+/// are rejected as too long) followed by the probe call without a mode argument
+fn gen_py_history(rng: &mut Rng) -> Value {
+    let modes = ["A", "B", "C"];
+    let fields: Value = if rng.chance(1, 2) { Value::Null } else { json!(PY_FIELDS.iter().filter(|_| rng.chance(1, 3)).collect::<Vec<_>>()) };
+    let mut ops = vec![];
+    for _ in 0..(1 + rng.below(5)) {
+        let text = if rng.chance(1, 4) { "あ".repeat(20000) } else { rng.pick(&PY_TEXTS).to_string() };
+        ops.push(json!({"op": "tokenize", "text": text, "mode": if rng.chance(2, 3) { json!(*rng.pick(&modes[..])) } else { Value::Null }, "out": rng.chance(1, 2)}));
+    }
+    ops.push(json!({"op": "tokenize", "text": *rng.pick(&PY_TEXTS[..]), "mode": Value::Null, "out": rng.chance(1, 2)}));
+    json!({"mode": *rng.pick(&modes[..]), "fields": fields, "projection": Value::Null, "ops": ops})
+}
+
+/// The Python Tokenizer wraps one StatefulTokenizer and switches its mode for single calls: every history session is
+/// run in the module built from the working tree next to a session that creates a fresh Tokenizer (same mode, same
+/// fields) and only makes the probe call; both probe observations (boundaries, surfaces, word ids, the requested fields of every morpheme,
+/// tokenizer.mode) must be equal.
+fn python_stage(sink: &mut Sink, args: &Args, rng: &mut Rng, replay: Option<Value>) {
+    let pypkg = std::env::var("VERIF_PYPKG").unwrap_or_default();
+    let root = std::env::var("VERIF_ROOT").unwrap_or_else(|_| ".".into());
+    if pypkg.is_empty() {
+        sink.tag("python_stage_skipped(module not staged)");
+        return;
+    }
+    let res = format!("{}/python/tests/resources", repo());
+    let cfg_path = format!("{}/sudachi.json", res);
+    let hist: Vec<Value> = match replay {
+        Some(s) => vec![s],
+        None => {
+            let mut v = vec![
+                json!({"mode": "C", "fields": null, "projection": null, "ops": [{"op": "tokenize", "text": "東京都", "mode": "A", "out": false}, {"op": "tokenize", "text": "東京都", "mode": null, "out": false}]}),
+                json!({"mode": "A", "fields": null, "projection": null, "ops": [{"op": "tokenize", "text": "あ".repeat(20000), "mode": null, "out": true}, {"op": "tokenize", "text": "東京都に行った", "mode": null, "out": true}]}),
+            ];
+            for _ in 0..args.n(150, 3000) {
+                v.push(gen_py_history(rng));
+            }
+            v
+        }
+    };
+    let mut sessions = vec![];
+    for h in &hist {
+        let probe = h["ops"].as_array().unwrap().last().unwrap().clone();
+        sessions.push(h.clone());
+        sessions.push(json!({"mode": h["mode"], "fields": h["fields"], "projection": h["projection"], "ops": [probe]}));
+    }
+    std::fs::create_dir_all(&args.work).unwrap();
+    let sp = args.work.join("c10_sessions.json");
+    let op = args.work.join("c10_py_out.json");
+    std::fs::write(&sp, serde_json::to_vec(&sessions).unwrap()).unwrap();
+    let _ = std::fs::remove_file(&op);
+    let st = std::process::Command::new("python3").arg(format!("{}/pyharness/run_py.py", root)).arg(&cfg_path).arg(&res).arg(&sp).arg(&op).env("PYTHONPATH", &pypkg).output();
+    let py: Option<Value> = std::fs::read_to_string(&op).ok().and_then(|s| serde_json::from_str(&s).ok());
+    let py = match (&st, py) {
+        (Ok(o), Some(py)) if o.status.success() => py,
+        (st, _) => {
+            let id = sink.case_rust_only(json!({"kind": "py-history-run"}), false);
+            let why = match st {
+                Ok(o) => String::from_utf8_lossy(&o.stderr).chars().rev().take(400).collect::<String>().chars().rev().collect::<String>(),
+                Err(e) => e.to_string(),
+            };
+            sink.fail(id, &format!("the python sessions did not complete: {}", why), "");
+            return;
+        }
+    };
+    for (i, h) in hist.iter().enumerate() {
+        // only requested fields are compared: per-call mode overrides legitimately leave extra fields loaded
+        let requested = |name: &str| h["fields"].is_null() || h["fields"].as_array().map_or(false, |f| f.iter().any(|x| x == name));
+        let restrict = |mut o: Value| -> Value {
+            if let Some(ms) = o["morphemes"].as_array_mut() {
+                for m in ms.iter_mut() {
+                    let m = m.as_object_mut().unwrap();
+                    for (field, keys) in [("pos", &["pos", "pos_id"][..]), ("dictionary_form", &["dictionary_form"][..]), ("normalized_form", &["normalized_form"][..]),
+                                          ("reading_form", &["reading_form"][..]), ("synonym_group_id", &["synonym_group_ids"][..])] {
+                        if !requested(field) {
+                            for k in keys {
+                                m.remove(*k);
+                            }
+                        }
+                    }
+                }
+            }
+            o
+        };
+        let a = restrict(py["results"][2 * i].as_array().and_then(|v| v.last().cloned()).unwrap_or(Value::Null));
+        let b = restrict(py["results"][2 * i + 1].as_array().and_then(|v| v.last().cloned()).unwrap_or(Value::Null));
+        let ops = h["ops"].as_array().unwrap();
+        let nontrivial = ops.len() >= 2 && a["morphemes"].as_array().map_or(false, |m| !m.is_empty());
+        sink.tag("py-history-session");
+        if ops[..ops.len() - 1].iter().any(|o| !o["mode"].is_null()) {
+            sink.tag("py:per-call_mode_override");
+        }
+        if ops[..ops.len() - 1].iter().any(|o| o["text"].as_str().map_or(false, |t| t.len() > 49149)) {
+            sink.tag("py:failing_call_in_history");
+        }
+        if ops[..ops.len() - 1].iter().any(|o| !o["mode"].is_null() && o["text"].as_str().map_or(false, |t| t.len() > 49149)) {
+            sink.tag("py:failing_call_with_mode_override");
+        }
+        let id = sink.case_rust_only(json!({"kind": "py-history", "session": h}), nontrivial);
+        if args.replay.is_some() {
+            println!("python probe after the history : {}\npython probe, fresh Tokenizer   : {}", a, b);
+        }
+        if a != b {
+            let what = if a["ok"] != b["ok"] {
+                format!("ok={} after the history, ok={} on a fresh Tokenizer", a["ok"], b["ok"])
+            } else if a["tok_mode"] != b["tok_mode"] {
+                format!("tokenizer.mode is {} after the history, {} on a fresh Tokenizer", a["tok_mode"], b["tok_mode"])
+            } else {
+                let (ma, mb) = (a["morphemes"].as_array().cloned().unwrap_or_default(), b["morphemes"].as_array().cloned().unwrap_or_default());
+                let k = ma.iter().zip(mb.iter()).position(|(x, y)| x != y).unwrap_or(ma.len().min(mb.len()));
+                format!("{} morphemes after the history, {} fresh; first difference at {}: {} vs {}", ma.len(), mb.len(), k, ma.get(k).unwrap_or(&Value::Null), mb.get(k).unwrap_or(&Value::Null))
+            };
+            sink.fail(id, &format!("sudachipy Tokenizer(mode {}), probe {:?} after {} earlier calls: {}", h["mode"], ops.last().unwrap()["text"], ops.len() - 1, what), "");
+        }
+    }
+}
+
 pub fn run(args: &Args) {
     let mut sink = Sink::new("C10", &args.out, &["Model.TokState"], args.seed, &args.tier);
     sink.shard_size = 60;
-    sink.rule("per generated dictionary (as in C09, with DefaultInputTextPlugin + length-changing rewrite.def and a path rewrite plugin that fails on '!'): a pool of texts (empty, short, long, oversized for start_build, oversized after rewriting, late-failing) and random sequences of 1..9 operations {set_mode, set_subset, analyse, new list, collect into a possibly reused list, split_into, lookup} on one StatefulTokenizer, then a probe (analyse + collect into a possibly reused list) compared in outcome, boundaries, word ids, every requested field and the on-demand split (split_into A/B) of every morpheme with (1) a fresh tokenizer carrying the same accumulated field set and (2) a fresh tokenizer of the same mode given the user's field request (default or last set_subset); non-trivial = the history holds at least one analysis and the probe yields tokens");
+    sink.rule("per generated dictionary (as in C09, with DefaultInputTextPlugin + length-changing rewrite.def and a path rewrite plugin that fails on '!'): a pool of texts (empty, short, long, oversized for start_build, oversized after rewriting, late-failing) and random sequences of 1..9 operations {set_mode, set_subset, analyse, new list, collect into a possibly reused list, split_into, lookup} on one StatefulTokenizer, then a probe (analyse + collect into a possibly reused list) compared in outcome, boundaries, word ids, every requested field and the on-demand split (split_into A/B) of every morpheme with (1) a fresh tokenizer carrying the same accumulated field set and (2) a fresh tokenizer of the same mode given the user's field request (default or last set_subset); plus sudachipy sessions (module built from the working tree): 1..5 tokenize calls with per-call mode override / out= reuse / rejected texts, then a probe call compared in boundaries, word ids, every requested field and tokenizer.mode with a fresh Tokenizer of the same mode and fields; non-trivial = the history holds at least one analysis and the probe yields tokens");
     let res = prepare_resources(&args.work);
     let cfg = config_json(&res, "");
     if let Some(p) = &args.replay {
         let v: Value = serde_json::from_str(&std::fs::read_to_string(p).unwrap()).unwrap();
         let c = &v["case"];
+        if c["kind"] == "py-history" || c["kind"] == "py-history-run" {
+            let mut rng = Rng::new(args.seed);
+            python_stage(&mut sink, args, &mut rng, if c["kind"] == "py-history" { Some(c["session"].clone()) } else { None });
+            sink.finish();
+            return;
+        }
         let mut lx = Lexica::default();
         let units = |x: &Value| -> Vec<(usize, u32, bool)> { x.as_array().unwrap().iter().map(|u| (u[0].as_u64().unwrap() as usize, u[1].as_u64().unwrap() as u32, u[2].as_bool().unwrap())).collect() };
         for x in c["lexica"].as_array().unwrap() {
@@ -628,5 +755,7 @@ pub fn run(args: &Args) {
             run_case(&mut sink, &w, &pool, rng.below(3) as u8, &ops, probe, rng.below(nlists as u64) as usize, false);
         }
     }
+    let mut prng = Rng::new(args.seed ^ 0x5079);
+    python_stage(&mut sink, args, &mut prng, None);
     sink.finish();
 }
